@@ -24,14 +24,17 @@ def selftest(which, verbose):
     for o in ev['coverage']['per_obligation']:
         f = o['name'].split('/')[0]
         per.setdefault(f, []).append(o)
-    und = {u['function']: u['reason'] for u in ev['coverage']['undecided_functions']}
+    und = {u['function'].replace('js st.js ', ''): u['reason'] for u in ev['coverage']['undecided_functions']}
     import re
     names = sorted(set(re.findall(r'^//@ func (st\.(?:Ok|Bad)_\w+)', open(os.path.join(corpus, 'internal', 'verifspec', 'st.go')).read(), re.M)))
+    jsf = os.path.join(corpus, 'internal', 'verifspec', 'stjs.go')
+    if os.path.exists(jsf):
+        names += sorted(set(re.findall(r'^//@ js st\.js (\$(?:ok|bad)_\w+)', open(jsf).read(), re.M)))
     bad = 0
     for n in names:
         obls = per.get(n, [])
         failed = [o for o in obls if o['status'] != 'discharged']
-        if n.startswith('st.Ok_'):
+        if n.startswith(('st.Ok_', '$ok_')):
             ok = n not in und and obls and not failed
             why = ('undecided: ' + und[n]) if n in und else ('no obligations' if not obls else ', '.join(o['name'].split('/')[-1] for o in failed))
         else:
